@@ -344,6 +344,14 @@ def run(repo, R):
     f = repo.func("gbasis.integrals.nuclear_electron_attraction.nuclear_electron_attraction_integral")
     R.note_function(f.qualname)
     check_nuc_wrapper(repo, f, R)
+    # "for every quantity": the density-derived quantities hand the transformation down to the evaluations / integrals they are built
+    # from; a call site that drops it returns the untransformed quantity
+    if len(getattr(R, "chain", [R.pid])) == 1:  # only when C09 itself is the property being checked
+        from ..report import compose as _compose
+        from . import c06 as _c06, c14 as _c14, c15 as _c15
+        for _pid, _m in (("C06", _c06), ("C14", _c14), ("C15", _c15)):
+            _compose(R, _pid, _m.run, repo, keep=lambda fd: fd.rule.endswith("/FWD") and "C09/" not in fd.rule,
+                     why="transform forwarded at every internal call site of the derived quantities")
     R.assumptions += [
         "numpy semantics of tensordot/swapaxes/transpose/moveaxis/concatenate/reshape/broadcasting as modelled in gbsa/axtype.py",
         "shell-list loops verified for the stated numbers of shells; sizes are symbolic (tags, not numbers, are compared)",
